@@ -98,6 +98,42 @@ func c13ErrClass(err error) int {
 	return 4
 }
 
+// file capabilities (cap_net_raw+ep, vfs_cap_data v2).  chown(2) on a non-directory strips
+// security.capability, and the shared materialiser chowns after setting xattrs, so the
+// attribute is (re)applied here, after Materialize, to every regular file that carries it
+var c13CapV2 = []byte{0x01, 0x00, 0x00, 0x02, 0x00, 0x20, 0x00, 0x00, 0, 0, 0, 0, 0, 0, 0, 0, 0, 0, 0, 0}
+
+const c13CapKey = "security.capability"
+
+func c13ReapplyCaps(roots []*MNode, dir string) error {
+	var rec func(base string, n *MNode) error
+	rec = func(base string, n *MNode) error {
+		p := filepath.Join(base, n.Name)
+		if v, ok := n.Stat.Xattrs[c13CapKey]; ok && os.FileMode(n.Stat.Mode)&os.ModeType == 0 {
+			var st unix.Stat_t
+			if err := unix.Lstat(p, &st); err != nil {
+				return err
+			}
+			if err := unix.Lsetxattr(p, c13CapKey, v, 0); err != nil {
+				return fmt.Errorf("lsetxattr %s %s: %v", p, c13CapKey, err)
+			}
+			// setxattr leaves mtime alone; restore nothing else
+		}
+		for _, k := range n.Kids {
+			if err := rec(p, k); err != nil {
+				return err
+			}
+		}
+		return nil
+	}
+	for _, n := range roots {
+		if err := rec(dir, n); err != nil {
+			return err
+		}
+	}
+	return nil
+}
+
 func c13SetRootMeta(dir string) error {
 	if err := os.Chown(dir, 0, 0); err != nil {
 		return err
@@ -201,6 +237,12 @@ func run1301(in Sx) (out Sx) {
 	if err := Materialize(dstView, dstRoot); err != nil {
 		return L(S("setup-dst"), S(err.Error()))
 	}
+	if err := c13ReapplyCaps(srcView, srcRoot); err != nil {
+		return L(S("setup-caps"), S(err.Error()))
+	}
+	if err := c13ReapplyCaps(dstView, dstRoot); err != nil {
+		return L(S("setup-caps"), S(err.Error()))
+	}
 	if err := c13SetRootMeta(srcRoot); err != nil {
 		return L(S("setup"), S(err.Error()))
 	}
@@ -266,8 +308,26 @@ func run1302(in Sx) (out Sx) {
 var c13Universe = []string{"d1", "d2", "f1", "f2", "x", "y"}
 
 func c13FixView(r *Rng, roots []*MNode, sockets, trustedOnLinks bool) {
-	var rec func(n *MNode)
-	rec = func(n *MNode) {
+	// paths that other names are hard-linked to
+	targets := map[string]bool{}
+	var scan func(n *MNode)
+	scan = func(n *MNode) {
+		if os.FileMode(n.Stat.Mode)&os.ModeType == 0 && n.Stat.Linkname != "" {
+			targets[n.Stat.Linkname] = true
+		}
+		for _, k := range n.Kids {
+			scan(k)
+		}
+	}
+	for _, n := range roots {
+		scan(n)
+	}
+	var rec func(dir string, n *MNode)
+	rec = func(dir string, n *MNode) {
+		p := n.Name
+		if dir != "" {
+			p = dir + "/" + n.Name
+		}
 		m := os.FileMode(n.Stat.Mode)
 		if sockets && m&os.ModeNamedPipe != 0 && r.Chance(40) {
 			n.Stat.Mode = uint32(os.ModeSocket | 0755)
@@ -275,12 +335,20 @@ func c13FixView(r *Rng, roots []*MNode, sockets, trustedOnLinks bool) {
 		if trustedOnLinks && m&os.ModeSymlink != 0 && r.Chance(30) {
 			n.Stat.Xattrs = map[string][]byte{"trusted.t": fillContent(r, 1+r.Intn(4))}
 		}
+		// file capabilities (security.capability) on regular files outside link groups
+		// (the members of a group are separate Stat values of one inode)
+		if m&os.ModeType == 0 && n.Stat.Linkname == "" && !targets[p] && r.Chance(15) {
+			if n.Stat.Xattrs == nil {
+				n.Stat.Xattrs = map[string][]byte{}
+			}
+			n.Stat.Xattrs[c13CapKey] = c13CapV2
+		}
 		for _, k := range n.Kids {
-			rec(k)
+			rec(p, k)
 		}
 	}
 	for _, n := range roots {
-		rec(n)
+		rec("", n)
 	}
 }
 
@@ -341,7 +409,47 @@ func c13ThroughLink(p c13Paths, arg string) bool {
 
 var c13ModeStrs = []string{"u+x", "go-w", "a=rX", "u=rw,go=r", "0755", "04755", "+X", "g+s", "o+t,u-w", "=", "a+t", "ug=rwx,o=", "u=g", "go=u-w", "-x"}
 
+// every option drawn independently (option COMBINATIONS: chown x mode x modestr x utime x
+// dir-contents x always-replace), used for half of the cases
+func c13GenOptsIndep(r *Rng, c15 bool) (c13Opts, string) {
+	o := c13Opts{umask: Pick(r, []int{022, 0, 027, 077})}
+	cls := "indep"
+	if r.Chance(40) {
+		o.chown = &[2]int{Pick(r, []int{0, 1, 100, 1000}), Pick(r, []int{0, 5, 200})}
+		cls += "+chown"
+	}
+	if r.Chance(35) {
+		m := Pick(r, []int{0755, 0700, 0644, 04755, 02755, 01777, 0, 0111})
+		o.mode = &m
+		cls += "+mode"
+	}
+	if r.Chance(35) {
+		o.modeStr = Pick(r, c13ModeStrs)
+		cls += "+modestr"
+	}
+	if r.Chance(40) {
+		t := int64(1400000000+r.Intn(1000))*1e9 + int64(r.Intn(1e9))
+		if r.Chance(20) {
+			t = int64(r.Intn(3))
+		}
+		o.utime = &t
+		cls += "+utime"
+	}
+	if r.Chance(35) {
+		o.dirContents = true
+		cls += "+dc"
+	}
+	if c15 && r.Chance(45) {
+		o.replace = true
+		cls += "+ar"
+	}
+	return o, cls
+}
+
 func c13GenOpts(r *Rng, c15 bool) (c13Opts, string) {
+	if r.Chance(50) {
+		return c13GenOptsIndep(r, c15)
+	}
 	o := c13Opts{umask: Pick(r, []int{022, 022, 0, 027})}
 	cls := "none"
 	switch r.Intn(9) {
@@ -462,11 +570,130 @@ func c13Case(r *Rng, c15 bool) (Sx, string, bool) {
 	return in, acls + "/" + ocls, len(sp.all) >= 2
 }
 
+// ---- directed cases: every type against every type at one path ----
+var c13Kinds = []string{"dir", "file", "link", "fifo", "chr", "blk", "sock"}
+
+func c13Node(kind, name string, r *Rng, child string) *MNode {
+	st := &types.Stat{Mode: 0644, ModTime: int64(1600000000+r.Intn(1000000))*1e9 + int64(r.Intn(1e9)),
+		Uid: uint32(Pick(r, []int{0, 1, 1000})), Gid: uint32(Pick(r, []int{0, 5}))}
+	n := &MNode{Name: name, Stat: st}
+	switch kind {
+	case "dir":
+		st.Mode = uint32(os.ModeDir) | uint32(Pick(r, []int{0755, 0700, 0711}))
+		if r.Chance(30) {
+			st.Mode |= uint32(os.ModeSetgid)
+		}
+		if r.Chance(40) {
+			st.Xattrs = map[string][]byte{"user.k" + string(rune('a'+r.Intn(3))): fillContent(r, 1+r.Intn(3))}
+		}
+		if child != "" {
+			n.Kids = []*MNode{c13Node("file", child, r, "")}
+		}
+	case "file":
+		st.Mode = uint32(Pick(r, []int{0644, 0600, 0755, 0}))
+		if r.Chance(20) {
+			st.Mode |= uint32(os.ModeSetuid)
+		}
+		sz := Pick(r, sizesSmall)
+		n.Content = fillContent(r, sz)
+		st.Size = int64(sz)
+		if r.Chance(40) {
+			st.Xattrs = map[string][]byte{"user.k" + string(rune('a'+r.Intn(3))): fillContent(r, 1+r.Intn(3))}
+		}
+		if r.Chance(30) {
+			if st.Xattrs == nil {
+				st.Xattrs = map[string][]byte{}
+			}
+			st.Xattrs[c13CapKey] = c13CapV2
+		}
+	case "link":
+		st.Mode = uint32(os.ModeSymlink | 0777)
+		st.Linkname = Pick(r, []string{"a", "../a", "nonexistent", "."})
+		st.Size = int64(len(st.Linkname))
+	case "fifo":
+		st.Mode = uint32(os.ModeNamedPipe | 0644)
+	case "chr":
+		st.Mode = uint32(os.ModeDevice|os.ModeCharDevice) | 0600
+		st.Devmajor, st.Devminor = int64(1+r.Intn(5)), int64(r.Intn(300))
+	case "blk":
+		st.Mode = uint32(os.ModeDevice) | 0660
+		st.Devmajor, st.Devminor = int64(7+r.Intn(3)), int64(r.Intn(5))
+	case "sock":
+		st.Mode = uint32(os.ModeSocket | 0755)
+	}
+	return n
+}
+
+func c13DirOf(name string, r *Rng, kids ...*MNode) *MNode {
+	d := c13Node("dir", name, r, "")
+	d.Kids = kids
+	sortKids(d)
+	return d
+}
+
+// source entry of type A and destination entry of type B at the same path, met (a) below a copied
+// directory, (b) as the path named by the call, (c) through a trailing-separator dst,
+// each with and without always-replace / dir-contents / an option set
+func c15Directed(g *Gen) {
+	r := g.Rng
+	for _, a := range c13Kinds {
+		for _, b := range c13Kinds {
+			for v := 0; v < 6; v++ {
+				var o c13Opts
+				ocls := "none"
+				if v%3 == 2 {
+					o, ocls = c13GenOptsIndep(r, true)
+				} else {
+					o = c13Opts{umask: 022}
+				}
+				o.replace = v%2 == 1
+				o.wild = false
+				sv := []*MNode{c13DirOf("d", r, c13Node(a, "x", r, "c"), c13Node("file", "s", r, ""))}
+				dv := []*MNode{c13DirOf("d", r, c13Node(b, "x", r, "y"), c13Node("file", "t", r, ""))}
+				var src, dst, pos string
+				switch v / 2 {
+				case 0:
+					src, dst, pos = "d", "/", "below"
+				case 1:
+					src, dst, pos = "d/x", "d/x", "named"
+				default:
+					src, dst, pos = "d/x", "d/", "into"
+				}
+				in := L(ViewSx(sv), ViewSx(dv), S(src), S(dst), o.Sx(), Bool(true))
+				cls := fmt.Sprintf("directed/%s-over-%s/%s/%s", a, b, pos, ocls)
+				if o.replace {
+					cls += "+ar"
+				}
+				g.Emit(0x1501, in, true, cls)
+			}
+		}
+	}
+}
+
+// every type alone and inside a directory into the empty destination, under an option set
+func c13Directed(g *Gen) {
+	r := g.Rng
+	for _, a := range c13Kinds {
+		for v := 0; v < 4; v++ {
+			o, ocls := c13GenOptsIndep(r, false)
+			o.wild = false
+			sv := []*MNode{c13DirOf("d", r, c13Node(a, "x", r, "c"), c13Node("file", "s", r, ""))}
+			src, dst := "d", Pick(r, []string{"/", "n", "n/", "n1/n2"})
+			if v%2 == 1 {
+				src = "d/x"
+			}
+			in := L(ViewSx(sv), ViewSx(nil), S(src), S(dst), o.Sx(), Bool(false))
+			g.Emit(0x1301, in, true, "directed/"+a+"/"+ocls)
+		}
+	}
+}
+
 func c13OK(out Sx) bool {
 	return len(out.L) >= 2 && out.L[0].Kind == 'l' && len(out.L[0].L) == 3 && out.L[0].L[0].Int() == 0
 }
 
 func genC13(g *Gen) {
+	c13Directed(g)
 	n := g.Vol(1500, 30000)
 	for i := 0; i < n; i++ {
 		in, cls, big := c13Case(g.Rng, false)
@@ -499,6 +726,7 @@ func genC13(g *Gen) {
 }
 
 func genC15(g *Gen) {
+	c15Directed(g)
 	n := g.Vol(1500, 30000)
 	for i := 0; i < n; i++ {
 		in, cls, big := c13Case(g.Rng, true)
